@@ -76,6 +76,8 @@ class Obligation:
     kind: str = "identity"
     extra_assumptions: list = field(default_factory=list)
     fallback: object = None  # callable -> list[Obligation]: exact (un-abstracted) form, tried when this one is sat
+    n_constraints: int | None = None  # side obligations: prove from the first n constraints/atoms only
+    n_atoms: int | None = None
 
 
 def domain(ctx: Ctx) -> list:
@@ -94,6 +96,7 @@ def discharge(
     tactics=(None, "qfnra-nlsat"),
     hunt_rounds: int = 24,
     hunt_seed: int = 0,
+    side_replay=None,
 ) -> list[Result]:
     """Discharge obligations under ctx's domain; one vacuity twin per call.
 
@@ -101,6 +104,28 @@ def discharge(
     """
     out: list[Result] = []
     base = domain(ctx)
+    # side obligations first, each from the constraints that preceded it; if one fails the
+    # auxiliary definitions are unjustified and nothing else is claimed for this context
+    side = [ob for ob in obligations if ob.kind == "side"]
+    if side:
+        side_res = []
+        for ob in side:
+            b = list(ctx.constraints[: ob.n_constraints]) + atoms_nonzero(ctx, ob.n_atoms)
+            st, model, secs, _ = solve(b, z3.Not(ob.goal), timeout_s=timeout_s, tactics=tactics)
+            r = Result(name=ob.name, kind="side", status=st, seconds=secs, config=config)
+            if st == "sat":
+                r.assignment = model_to_assignment(ctx, model)
+                fn = side_replay or replay
+                if fn is not None:
+                    try:
+                        r.replay = fn(ob.name, r.assignment)
+                    except Exception as exc:  # noqa: BLE001
+                        r.replay = {"reproduced": False, "error": f"{type(exc).__name__}: {exc}"}
+            side_res.append(r)
+        if any(r.status != "unsat" for r in side_res):
+            return side_res
+        out += side_res
+        obligations = [ob for ob in obligations if ob.kind != "side"]
     if twin:
         st, _, secs, _ = solve(base, None, timeout_s=timeout_s, tactics=tactics)
         out.append(
@@ -217,10 +242,10 @@ def identity_obligations(name: str, lhs, rhs) -> list[Obligation]:
 def side_obligations(ctx: Ctx) -> list[Obligation]:
     seen = set()
     out = []
-    for label, cond in ctx.side:
+    for label, cond, n_c, n_a in ctx.side:
         k = cond.get_id()
         if k in seen:
             continue
         seen.add(k)
-        out.append(Obligation(f"side::{label}::{len(out)}", cond, "side"))
+        out.append(Obligation(f"side::{label}::{len(out)}", cond, "side", n_constraints=n_c, n_atoms=n_a))
     return out
